@@ -6,6 +6,7 @@ exit 2  engine error: solver unknown, non-deterministic replay, counterexample t
         harness, search not exhausted -- never reported as success, never as a violation
 """
 import collections
+import re
 import hashlib
 import json
 import os
@@ -117,10 +118,12 @@ class Run:
             self.error("search not exhausted within its budget (inconclusive, not success)")
         for sig, f in self.failures.items():
             listed = [k for k in known if k.get("property") == self.prop and k.get("status") == "known"
-                      and k.get("signature") == sig]
+                      and (k.get("signature") == sig or
+                           (k.get("signature_regex") and re.fullmatch(k["signature_regex"], sig)))]
             if listed:
                 nknown += 1
-                lines.append("KNOWN-FINDING: property=%s %s (%d failing paths)" % (self.prop, sig, f["count"]))
+                lines.append("KNOWN-FINDING: property=%s [%s] %s (%d failing paths)" % (
+                    self.prop, listed[0].get("id", "?"), sig, f["count"]))
                 continue
             payload = dict(f["payload"])
             payload.setdefault("property", self.prop)
